@@ -1,6 +1,8 @@
 import FancyModel.Lemmas.VMBytesRefine
 import FancyModel.Lemmas.VMBytesTyped
 import FancyModel.Lemmas.VMBytesInv
+import FancyModel.Lemmas.VMBytesTame
+import FancyModel.Proofs.C01e
 import FancyModel.Proofs.C05d
 import FancyModel.Proofs.C11b
 /-!
@@ -9,10 +11,15 @@ characters
 
 Corollaries of the refinement `runB_refines` (Lemmas/VMBytesRefine.lean): the byte machine
 `runB` (Model/VMBytes.lean, vm.rs at byte level) on the UTF-8 encoding of the text returns the
-code-point machine's outcome with position slots mapped to byte offsets. Hypotheses of the
-refinement, carried by the run-level corollaries: a slot typing `τ` with `wellTyped τ prog` and the
-monitor `okLoop` (every configuration the code-point run visits satisfies the local precondition of
-its instruction); both are decidable / computable.
+code-point machine's outcome with position slots mapped to byte offsets.
+
+Three layers of each run-level corollary:
+* `*_of_typed`: any program, a slot typing `τ` with `wellTyped τ prog`, the monitor `okLoop`;
+* `*_of_tame` (and the un-suffixed `C05_bytes_no_slice_panic`, `C01_bytes_vm_correct`): programs `build`
+  returns — the typing is `tauOf`, proved well typed (`build_wellTyped`) — under the monitor `bOK`,
+  which follows from the residual monitor `bTame` (`bOK_of_bTame`);
+* stage S3 (`runB_refines_built`, `C05_bytes_no_panic_s3`, `C05_bytes_offsets_valid`,
+  `C01_bytes_vm_correct_s3`, and `*_pipeline` from the pattern string): NO side condition — `bTame_s3`.
 
 * `C13_goback_counts_characters` — `GoBack(count)` at the byte offset of character `k` lands on the
   byte offset of character `k - count` (a character boundary) if `count ≤ k` and fails otherwise;
@@ -343,7 +350,7 @@ theorem bOK_of_bTame (tree : Expr) (backrefs : List Nat) (b : Built) (prog : Pro
 
 include hceq hU in
 /-- `runB_refines` for built programs -/
-theorem runB_refines_built (tree : Expr) (backrefs : List Nat) (b : Built) (prog : Prog)
+theorem runB_refines_built_of_tame (tree : Expr) (backrefs : List Nat) (b : Built) (prog : Prog)
     (hb : build tree backrefs = .ok b) (hk : b.kind = .fancy prog) (limit fuel : Nat)
     (hok : bOK c b prog limit fuel = true) :
     runB (BCtx.ofCtx c) prog ⟨limit, maxStackDefault⟩ fuel =
@@ -362,7 +369,7 @@ theorem C05_bytes_no_slice_panic (tree : Expr) (backrefs : List Nat) (b : Built)
   exact C05_bytes_no_slice_panic_of_typed c _ prog.nSaves hceq hU hτ prog ⟨limit, maxStackDefault⟩ fuel hwt hok site h
 
 include hceq hU in
-theorem C05_bytes_no_panic_s3 (tree : Expr) (backrefs : List Nat) (b : Built) (prog : Prog)
+theorem C05_bytes_no_panic_s3_of_tame (tree : Expr) (backrefs : List Nat) (b : Built) (prog : Prog)
     (hb : build tree backrefs = .ok b) (hk : b.kind = .fancy prog)
     (hs3 : s3ok (fun g => backrefs.contains g) b.raw true = true) (hws : wellShaped b.raw = true)
     (hz : noBareEndZ b.raw = true)
@@ -374,7 +381,7 @@ theorem C05_bytes_no_panic_s3 (tree : Expr) (backrefs : List Nat) (b : Built) (p
     (build_progDelegOK tree backrefs b prog hb hk) hlen hpos limit fuel hwt hok site
 
 include hceq hU in
-theorem C05_bytes_offsets_valid (tree : Expr) (backrefs : List Nat) (b : Built) (prog : Prog)
+theorem C05_bytes_offsets_valid_of_tame (tree : Expr) (backrefs : List Nat) (b : Built) (prog : Prog)
     (hb : build tree backrefs = .ok b) (hk : b.kind = .fancy prog) (hvm : VmCorrectR b c) (limit fuel : Nat)
     (hok : bOK c b prog limit fuel = true) (savesB : List Nat)
     (hm : (runB (BCtx.ofCtx c) prog ⟨limit, maxStackDefault⟩ fuel).1 = .matched savesB) :
@@ -404,7 +411,7 @@ theorem C01_bytes_vm_correct (tree : Expr) (backrefs : List Nat) (b : Built) (pr
     limit fuel hwt hok
 
 include hceq hU in
-theorem C01_bytes_vm_correct_s3 (tree : Expr) (backrefs : List Nat) (b : Built) (prog : Prog)
+theorem C01_bytes_vm_correct_s3_of_tame (tree : Expr) (backrefs : List Nat) (b : Built) (prog : Prog)
     (hb : build tree backrefs = .ok b) (hk : b.kind = .fancy prog)
     (hs3 : s3ok (fun g => backrefs.contains g) b.raw true = true) (hws : wellShaped b.raw = true)
     (hz : noBareEndZ b.raw = true) (hlen : c.len < UNSET) (hpos : c.pos ≤ c.len) (limit fuel : Nat)
@@ -421,6 +428,164 @@ theorem C01_bytes_vm_correct_s3 (tree : Expr) (backrefs : List Nat) (b : Built) 
     limit fuel hok
 
 end Built
+
+/-! ### stage S3: unconditional
+
+For a stage-S3 pattern the structured machine reaches the reference answer (`big2_s3`), the
+interpreter's run follows it, and the structured machine is only defined on tame configurations
+(`big2_tame`, Lemmas/VMBytesTame.lean): the residual monitor `bTame`, hence `bOK`, holds for every
+text, start position, limit and fuel. The byte-level theorems of stage S3 carry no run-time side
+condition. (`*_pipeline`: from the pattern string, hypotheses of `C01_pipeline_s3`.) -/
+
+section S3
+variable (c : Ctx)
+variable (hceq : ∀ a b, c.ceq false a b = (a == b))
+variable (hU : (bytesOfChars c.text).length < UNSET)
+
+/-- **every run of a stage-S3 program is tame** -/
+theorem bTame_s3 (tree : Expr) (backrefs : List Nat) (b : Built) (prog : Prog)
+    (hb : build tree backrefs = .ok b) (hk : b.kind = .fancy prog)
+    (hs3 : s3ok (fun g => backrefs.contains g) b.raw true = true) (hws : wellShaped b.raw = true)
+    (hz : noBareEndZ b.raw = true) (hlen : c.len < UNSET) (hpos : c.pos ≤ c.len) (limit fuel : Nat) :
+    bTame c b prog limit fuel = true :=
+  big2_tame_initial c _ prog ⟨limit, maxStackDefault⟩
+    (delegOK_of_prog c prog.body prog.nSaves (build_progDelegOK tree backrefs b prog hb hk)) _
+    (big2_s3 tree backrefs b prog c hb hk hs3 hws hz hlen hpos) fuel
+
+/-- … hence the monitor of the refinement holds -/
+theorem bOK_s3 (tree : Expr) (backrefs : List Nat) (b : Built) (prog : Prog)
+    (hb : build tree backrefs = .ok b) (hk : b.kind = .fancy prog)
+    (hs3 : s3ok (fun g => backrefs.contains g) b.raw true = true) (hws : wellShaped b.raw = true)
+    (hz : noBareEndZ b.raw = true) (hlen : c.len < UNSET) (hpos : c.pos ≤ c.len) (limit fuel : Nat) :
+    bOK c b prog limit fuel = true :=
+  bOK_of_bTame c tree backrefs b prog hb hk hpos limit fuel
+    (bTame_s3 c tree backrefs b prog hb hk hs3 hws hz hlen hpos limit fuel)
+
+include hceq hU in
+/-- **stage S3: `runB` = mapped `run`**, no side condition -/
+theorem runB_refines_built (tree : Expr) (backrefs : List Nat) (b : Built) (prog : Prog)
+    (hb : build tree backrefs = .ok b) (hk : b.kind = .fancy prog)
+    (hs3 : s3ok (fun g => backrefs.contains g) b.raw true = true) (hws : wellShaped b.raw = true)
+    (hz : noBareEndZ b.raw = true) (hlen : c.len < UNSET) (hpos : c.pos ≤ c.len) (limit fuel : Nat) :
+    runB (BCtx.ofCtx c) prog ⟨limit, maxStackDefault⟩ fuel =
+      (mapOut (tauOf prog.body b.nGroups) (offOf c.text) (run c prog ⟨limit, maxStackDefault⟩ fuel).1,
+        (run c prog ⟨limit, maxStackDefault⟩ fuel).2) :=
+  runB_refines_built_of_tame c hceq hU tree backrefs b prog hb hk limit fuel
+    (bOK_s3 c tree backrefs b prog hb hk hs3 hws hz hlen hpos limit fuel)
+
+include hceq hU in
+/-- **stage S3: the byte machine never panics** -/
+theorem C05_bytes_no_panic_s3 (tree : Expr) (backrefs : List Nat) (b : Built) (prog : Prog)
+    (hb : build tree backrefs = .ok b) (hk : b.kind = .fancy prog)
+    (hs3 : s3ok (fun g => backrefs.contains g) b.raw true = true) (hws : wellShaped b.raw = true)
+    (hz : noBareEndZ b.raw = true) (hlen : c.len < UNSET) (hpos : c.pos ≤ c.len) (limit fuel : Nat)
+    (site : String) : (runB (BCtx.ofCtx c) prog ⟨limit, maxStackDefault⟩ fuel).1 ≠ .panic site :=
+  C05_bytes_no_panic_s3_of_tame c hceq hU tree backrefs b prog hb hk hs3 hws hz hlen hpos limit fuel
+    (bOK_s3 c tree backrefs b prog hb hk hs3 hws hz hlen hpos limit fuel) site
+
+include hceq hU in
+/-- **stage S3: every capture offset the byte machine reports is `UNSET` or a character boundary inside
+    the text; the overall match satisfies `pos ≤ start ≤ end ≤ byte length`** -/
+theorem C05_bytes_offsets_valid (tree : Expr) (backrefs : List Nat) (b : Built) (prog : Prog)
+    (hb : build tree backrefs = .ok b) (hk : b.kind = .fancy prog)
+    (hs3 : s3ok (fun g => backrefs.contains g) b.raw true = true) (hws : wellShaped b.raw = true)
+    (hz : noBareEndZ b.raw = true) (hlen : c.len < UNSET) (hpos : c.pos ≤ c.len) (limit fuel : Nat)
+    (savesB : List Nat)
+    (hm : (runB (BCtx.ofCtx c) prog ⟨limit, maxStackDefault⟩ fuel).1 = .matched savesB) :
+    (∀ i w, i < 2 * b.nGroups → savesB[i]? = some w →
+      w = UNSET ∨ (isBoundary (bytesOfChars c.text) w = true ∧ w ≤ (bytesOfChars c.text).length)) ∧
+    (∃ s e, savesB[0]? = some s ∧ savesB[1]? = some e ∧
+      (BCtx.ofCtx c).pos ≤ s ∧ s ≤ e ∧ e ≤ (bytesOfChars c.text).length ∧
+      isBoundary (bytesOfChars c.text) s = true ∧ isBoundary (bytesOfChars c.text) e = true) :=
+  C05_bytes_offsets_valid_of_tame c hceq hU tree backrefs b prog hb hk
+    (C01_vm_correct_s3 tree backrefs b prog c hb hk hs3 hws hz (build_progDelegOK tree backrefs b prog hb hk) hlen hpos)
+    limit fuel (bOK_s3 c tree backrefs b prog hb hk hs3 hws hz hlen hpos limit fuel) savesB hm
+
+include hceq hU in
+/-- **stage S3: the byte machine's answer is the reference search's, in byte offsets** -/
+theorem C01_bytes_vm_correct_s3 (tree : Expr) (backrefs : List Nat) (b : Built) (prog : Prog)
+    (hb : build tree backrefs = .ok b) (hk : b.kind = .fancy prog)
+    (hs3 : s3ok (fun g => backrefs.contains g) b.raw true = true) (hws : wellShaped b.raw = true)
+    (hz : noBareEndZ b.raw = true) (hlen : c.len < UNSET) (hpos : c.pos ≤ c.len) (limit fuel : Nat) :
+    (runB (BCtx.ofCtx c) prog ⟨limit, maxStackDefault⟩ fuel).1 = .outOfFuel ∨
+    (runB (BCtx.ofCtx c) prog ⟨limit, maxStackDefault⟩ fuel).1 = .errStack ∨
+    (runB (BCtx.ofCtx c) prog ⟨limit, maxStackDefault⟩ fuel).1 = .errLimit ∨
+    match refSearch c b.raw b.nGroups with
+    | some f => ∃ savesB, (runB (BCtx.ofCtx c) prog ⟨limit, maxStackDefault⟩ fuel).1 = .matched savesB ∧
+        (viewSlots savesB).take (b.nGroups * 2) = f.slots.map (Option.map (offOf c.text))
+    | none => (runB (BCtx.ofCtx c) prog ⟨limit, maxStackDefault⟩ fuel).1 = .noMatch :=
+  C01_bytes_vm_correct_s3_of_tame c hceq hU tree backrefs b prog hb hk hs3 hws hz hlen hpos limit fuel
+    (bOK_s3 c tree backrefs b prog hb hk hs3 hws hz hlen hpos limit fuel)
+
+/-! #### from the pattern string -/
+
+theorem bTame_pipeline (isAlnum : Char → Bool) (cs : List Char) (casei : Bool) (t : Parse.Tree) (b : Built)
+    (prog : Prog) (hp : Parse.parseStr isAlnum cs casei = .ok t) (hb : build t.expr t.backrefs = .ok b)
+    (hk : b.kind = .fancy prog) (hst : s3Pattern t b = true)
+    (hlen : c.len < UNSET) (hpos : c.pos ≤ c.len) (limit fuel : Nat) :
+    bTame c b prog limit fuel = true := by
+  simp only [s3Pattern, Bool.and_eq_true] at hst
+  exact bTame_s3 c t.expr t.backrefs b prog hb hk hst.1 (Parse.parse_build_wellShaped isAlnum cs casei t b hp hb).2
+    (build_raw_noBareEndZ t.expr t.backrefs b hb hst.2) hlen hpos limit fuel
+
+include hceq hU in
+theorem runB_refines_pipeline (isAlnum : Char → Bool) (cs : List Char) (casei : Bool) (t : Parse.Tree) (b : Built)
+    (prog : Prog) (hp : Parse.parseStr isAlnum cs casei = .ok t) (hb : build t.expr t.backrefs = .ok b)
+    (hk : b.kind = .fancy prog) (hst : s3Pattern t b = true)
+    (hlen : c.len < UNSET) (hpos : c.pos ≤ c.len) (limit fuel : Nat) :
+    runB (BCtx.ofCtx c) prog ⟨limit, maxStackDefault⟩ fuel =
+      (mapOut (tauOf prog.body b.nGroups) (offOf c.text) (run c prog ⟨limit, maxStackDefault⟩ fuel).1,
+        (run c prog ⟨limit, maxStackDefault⟩ fuel).2) := by
+  simp only [s3Pattern, Bool.and_eq_true] at hst
+  exact runB_refines_built c hceq hU t.expr t.backrefs b prog hb hk hst.1
+    (Parse.parse_build_wellShaped isAlnum cs casei t b hp hb).2 (build_raw_noBareEndZ t.expr t.backrefs b hb hst.2)
+    hlen hpos limit fuel
+
+include hceq hU in
+theorem C05_bytes_no_panic_pipeline (isAlnum : Char → Bool) (cs : List Char) (casei : Bool) (t : Parse.Tree)
+    (b : Built) (prog : Prog) (hp : Parse.parseStr isAlnum cs casei = .ok t) (hb : build t.expr t.backrefs = .ok b)
+    (hk : b.kind = .fancy prog) (hst : s3Pattern t b = true)
+    (hlen : c.len < UNSET) (hpos : c.pos ≤ c.len) (limit fuel : Nat) (site : String) :
+    (runB (BCtx.ofCtx c) prog ⟨limit, maxStackDefault⟩ fuel).1 ≠ .panic site := by
+  simp only [s3Pattern, Bool.and_eq_true] at hst
+  exact C05_bytes_no_panic_s3 c hceq hU t.expr t.backrefs b prog hb hk hst.1
+    (Parse.parse_build_wellShaped isAlnum cs casei t b hp hb).2 (build_raw_noBareEndZ t.expr t.backrefs b hb hst.2)
+    hlen hpos limit fuel site
+
+include hceq hU in
+theorem C05_bytes_offsets_valid_pipeline (isAlnum : Char → Bool) (cs : List Char) (casei : Bool) (t : Parse.Tree)
+    (b : Built) (prog : Prog) (hp : Parse.parseStr isAlnum cs casei = .ok t) (hb : build t.expr t.backrefs = .ok b)
+    (hk : b.kind = .fancy prog) (hst : s3Pattern t b = true)
+    (hlen : c.len < UNSET) (hpos : c.pos ≤ c.len) (limit fuel : Nat) (savesB : List Nat)
+    (hm : (runB (BCtx.ofCtx c) prog ⟨limit, maxStackDefault⟩ fuel).1 = .matched savesB) :
+    (∀ i w, i < 2 * b.nGroups → savesB[i]? = some w →
+      w = UNSET ∨ (isBoundary (bytesOfChars c.text) w = true ∧ w ≤ (bytesOfChars c.text).length)) ∧
+    (∃ s e, savesB[0]? = some s ∧ savesB[1]? = some e ∧
+      (BCtx.ofCtx c).pos ≤ s ∧ s ≤ e ∧ e ≤ (bytesOfChars c.text).length ∧
+      isBoundary (bytesOfChars c.text) s = true ∧ isBoundary (bytesOfChars c.text) e = true) := by
+  simp only [s3Pattern, Bool.and_eq_true] at hst
+  exact C05_bytes_offsets_valid c hceq hU t.expr t.backrefs b prog hb hk hst.1
+    (Parse.parse_build_wellShaped isAlnum cs casei t b hp hb).2 (build_raw_noBareEndZ t.expr t.backrefs b hb hst.2)
+    hlen hpos limit fuel savesB hm
+
+include hceq hU in
+theorem C01_bytes_vm_correct_pipeline (isAlnum : Char → Bool) (cs : List Char) (casei : Bool) (t : Parse.Tree)
+    (b : Built) (prog : Prog) (hp : Parse.parseStr isAlnum cs casei = .ok t) (hb : build t.expr t.backrefs = .ok b)
+    (hk : b.kind = .fancy prog) (hst : s3Pattern t b = true)
+    (hlen : c.len < UNSET) (hpos : c.pos ≤ c.len) (limit fuel : Nat) :
+    (runB (BCtx.ofCtx c) prog ⟨limit, maxStackDefault⟩ fuel).1 = .outOfFuel ∨
+    (runB (BCtx.ofCtx c) prog ⟨limit, maxStackDefault⟩ fuel).1 = .errStack ∨
+    (runB (BCtx.ofCtx c) prog ⟨limit, maxStackDefault⟩ fuel).1 = .errLimit ∨
+    match refSearch c b.raw b.nGroups with
+    | some f => ∃ savesB, (runB (BCtx.ofCtx c) prog ⟨limit, maxStackDefault⟩ fuel).1 = .matched savesB ∧
+        (viewSlots savesB).take (b.nGroups * 2) = f.slots.map (Option.map (offOf c.text))
+    | none => (runB (BCtx.ofCtx c) prog ⟨limit, maxStackDefault⟩ fuel).1 = .noMatch := by
+  simp only [s3Pattern, Bool.and_eq_true] at hst
+  exact C01_bytes_vm_correct_s3 c hceq hU t.expr t.backrefs b prog hb hk hst.1
+    (Parse.parse_build_wellShaped isAlnum cs casei t b hp hb).2 (build_raw_noBareEndZ t.expr t.backrefs b hb hst.2)
+    hlen hpos limit fuel
+
+end S3
 
 /-! ### Non-vacuity: the text "aé😀b" (1 + 2 + 4 + 1 bytes), a program with `Any`, `Lit`, `GoBack`, `Backref`
 
